@@ -1063,12 +1063,23 @@ Polygon ellipse(const Vec2 center, double radius_x, double radius_y, double inne
     result.tag = tag;
     const double full_angle =
         (final_angle == initial_angle) ? 2 * M_PI : fabs(final_angle - initial_angle);
+    // Slices are sampled uniformly in the elliptical parameter of each ellipse
+    const bool is_slice = full_angle != 2 * M_PI;
+    const double outer_angle =
+        is_slice ? fabs(elliptical_angle_transform(final_angle, radius_x, radius_y) -
+                        elliptical_angle_transform(initial_angle, radius_x, radius_y))
+                 : full_angle;
     if (inner_radius_x > 0 && inner_radius_y > 0) {
+        const double inner_angle =
+            is_slice
+                ? fabs(elliptical_angle_transform(final_angle, inner_radius_x, inner_radius_y) -
+                       elliptical_angle_transform(initial_angle, inner_radius_x, inner_radius_y))
+                : full_angle;
         uint64_t num_points1 =
-            1 + arc_num_points(full_angle, radius_x > radius_y ? radius_x : radius_y, tolerance);
+            1 + arc_num_points(outer_angle, radius_x > radius_y ? radius_x : radius_y, tolerance);
         if (num_points1 < GDSTK_MIN_POINTS) num_points1 = GDSTK_MIN_POINTS;
         uint64_t num_points2 =
-            1 + arc_num_points(full_angle,
+            1 + arc_num_points(inner_angle,
                                inner_radius_x > inner_radius_y ? inner_radius_x : inner_radius_y,
                                tolerance);
         if (num_points2 < GDSTK_MIN_POINTS) num_points2 = GDSTK_MIN_POINTS;
@@ -1108,7 +1119,7 @@ Polygon ellipse(const Vec2 center, double radius_x, double radius_y, double inne
         }
     } else {
         uint64_t num_points =
-            1 + arc_num_points(full_angle, radius_x > radius_y ? radius_x : radius_y, tolerance);
+            1 + arc_num_points(outer_angle, radius_x > radius_y ? radius_x : radius_y, tolerance);
         if (num_points < GDSTK_MIN_POINTS) num_points = GDSTK_MIN_POINTS;
         if (full_angle == 2 * M_PI) {
             // Full ellipse
